@@ -1986,6 +1986,46 @@ const MAX_RRSIGS_PER_RRSET: usize = 8;
 /// recursor response cache
 const DEFAULT_VALIDATION_CACHE_SIZE: usize = 1_048_576;
 
+/// Verification hooks: thin public wrappers around the private NSEC/NSEC3 decision procedures.
+#[cfg(hickory_dns_verif)]
+#[doc(hidden)]
+pub mod verif_hooks {
+    use super::{Name, Proof, Query, Record, ResponseCode};
+    use crate::proto::dnssec::rdata::{NSEC, NSEC3};
+
+    /// see `super::verify_nsec`
+    pub fn verify_nsec(
+        query: &Query,
+        soa_name: Option<&Name>,
+        response_code: ResponseCode,
+        answers: &[Record],
+        nsecs: &[(&Name, &NSEC)],
+    ) -> Proof {
+        super::verify_nsec(query, soa_name, response_code, answers, nsecs)
+    }
+
+    /// see `super::nsec3::verify_nsec3`
+    pub fn verify_nsec3(
+        query: &Query,
+        soa: Option<&Name>,
+        response_code: ResponseCode,
+        answers: &[Record],
+        nsec3s: &[(&Name, &NSEC3)],
+        nsec3_soft_iteration_limit: u16,
+        nsec3_hard_iteration_limit: u16,
+    ) -> Proof {
+        super::verify_nsec3(
+            query,
+            soa,
+            response_code,
+            answers,
+            nsec3s,
+            nsec3_soft_iteration_limit,
+            nsec3_hard_iteration_limit,
+        )
+    }
+}
+
 #[cfg(test)]
 mod test {
     use super::{no_closer_matches, verify_nsec};
